@@ -18,15 +18,16 @@ func init() {
 const MaxPayload = 6*1024*1024 + 100
 
 type rtPlan struct {
-	mode     string // ok | error | stall | exit | oversize
-	evSize   int
-	evClass  int
-	respSize int
-	polls    int
-	cliCtx   string
-	trace    string
-	payload  []byte
-	resp     []byte
+	mode      string // ok | error | stall | exit | oversize
+	evSize    int
+	evClass   int
+	respSize  int
+	polls     int
+	streamHdr bool // C14: the /response carries Lambda-Runtime-Function-Response-Mode: streaming
+	cliCtx    string
+	trace     string
+	payload   []byte
+	resp      []byte
 }
 
 func genBytes(rng *rand.Rand, class, n int, tag string) []byte {
@@ -157,6 +158,9 @@ func scenRoundTrip(r *Run, job *Job, prop string) {
 			if t.Chance(1, 3) {
 				p.polls = 1 + t.Draw(2) // asks for the same event again before answering
 			}
+			// a runtime may announce the streaming response mode on its /response (a header the Runtime API defines);
+			// through the emulator's front end the invocation is buffered all the same and the limit applies unchanged
+			p.streamHdr = t.Chance(1, 3)
 		}
 		p.cliCtx = drawCtx(t, rng)
 		if t.Chance(1, 3) {
@@ -186,6 +190,9 @@ func scenRoundTrip(r *Run, job *Job, prop string) {
 		b.PerInv = func(inv *Invocation) *InvBehav {
 			pl := plans[inv.N-1]
 			ib := &InvBehav{Body: pl.resp, ExtraPolls: pl.polls}
+			if pl.streamHdr {
+				ib.Hdr = map[string]string{"Lambda-Runtime-Function-Response-Mode": "streaming"}
+			}
 			switch pl.mode {
 			case "error":
 				ib.Mode, ib.ErrType = "error", "Function.Sim"
